@@ -381,9 +381,16 @@ def check_pair_cases(ctx, out, cases, kind_for_model="corr"):
                 continue
             # (1) reported score = independently recomputed score of the returned path
             if ps is None or abs(float(ps) - score) > _tol(score):
-                add_failure(out, "spec", "reported score differs from the recomputed score of the returned alignment", ainp,
-                            dict(path_score=None if ps is None else float(ps)), dict(reported=score, rows=[r1, r2]),
-                            sig=f"pw:score-ne-path:{mode}:{algo}")
+                if ps is not None and opt is not None and abs(float(opt) - score) <= _tol(score) and float(opt - ps) > _tol(score):
+                    # the score is the optimum but the alignment handed back is a worse path
+                    sig = f"pw:returned-path-below-reported-optimal-score:{mode}:{algo}"
+                    what = "reported score is the optimum but the returned alignment is a lower-scoring path"
+                else:
+                    sig = f"pw:score-ne-path:{mode}:{algo}"
+                    what = "reported score differs from the recomputed score of the returned alignment"
+                add_failure(out, "spec", what, ainp,
+                            dict(path_score=None if ps is None else float(ps), optimum=None if opt is None else float(opt), optimal_path=lean.get("path")),
+                            dict(reported=score, rows=[r1, r2]), sig=sig)
                 continue
             fps = float_path_score(r["hmm"], local, r["path"], *(r["offs"] if local else (0, 0)))
             if abs(fps - float(ps)) > _tol(score):
@@ -551,7 +558,7 @@ def _gap_correspondence(ctx, out, rng):
             o = _rand_gaps(rng, seqlen)
             tot = seqlen + sum(o.values())
             rg = _rand_gaps(rng, tot + (3 if malformed else 0))
-            reqs.append(("inject", dict(other=_items(o), ref=_items(rg), seqlen=seqlen)))
+            reqs.append(("inject", dict(other=_items(o), ref=_items(rg), seqlen=seqlen, fixed=injection_variant(ctx))))
             try:
                 real.append(_items(A._gaps_for_injection(dict(o), dict(rg), seqlen)))
             except ValueError:
@@ -684,8 +691,20 @@ def check_p2m(out, ref, pairs, plausible, model=None, source="generated"):
     return got
 
 
-def _p2m_model_req(ref, pairs):
-    return ("p2m", dict(reflen=len(ref), pairs=[dict(ref=_items(row_gaps(r1)), other=_items(row_gaps(r2)), len=len(r2.replace("-", ""))) for r1, r2 in pairs]))
+def injection_variant(ctx):
+    """which `_gaps_for_injection` the tree under test has: the pinned one (False) or the proposed repair
+    fixes/C18-p2m-gap-injection.patch (True); the Lean model carries both variants"""
+    if not hasattr(ctx, "_c18_fixed"):
+        from cogent3.app.align import _gaps_for_injection
+
+        got = _gaps_for_injection({0: 2}, {1: 1}, 2)
+        ctx._c18_fixed = got == {0: 3}
+        ctx.notes.append(f"_gaps_for_injection variant under test: {'repaired' if ctx._c18_fixed else 'as pinned'} (probe -> {got})")
+    return ctx._c18_fixed
+
+
+def _p2m_model_req(ctx, ref, pairs):
+    return ("p2m", dict(reflen=len(ref), fixed=injection_variant(ctx), pairs=[dict(ref=_items(row_gaps(r1)), other=_items(row_gaps(r2)), len=len(r2.replace("-", ""))) for r1, r2 in pairs]))
 
 
 def _row_from_gaps(seq, gaps):
@@ -706,7 +725,7 @@ def gen_p2m_case(rng, plausible):
 
 def p2m_checks(ctx, out, rng, n):
     cases = [(gen_p2m_case(rng, plausible := (rng.random() < 0.7)), plausible) for _ in range(n)]
-    model = ctx.driver.batch([_p2m_model_req(ref, pairs) for (ref, pairs), _ in cases]) if getattr(ctx, "driver", None) else [None] * len(cases)
+    model = ctx.driver.batch([_p2m_model_req(ctx, ref, pairs) for (ref, pairs), _ in cases]) if getattr(ctx, "driver", None) else [None] * len(cases)
     for ((ref, pairs), plausible), m in zip(cases, model):
         nfail = len(out["failures"])
         got = check_p2m(out, ref, pairs, plausible)
@@ -873,6 +892,14 @@ def spec_check(ctx, budget):
 def match_finding(f, k):
     if f.get("sig") not in k.get("sigs", []):
         return False
+    r = k.get("restrict") or {}
+    inp = f.get("input") or {}
+    if "algo" in r and inp.get("algo") != r["algo"]:
+        return False
+    if "local" in r and bool(inp.get("local")) != r["local"]:
+        return False
+    if "class" in r and not f["sig"].endswith(":" + r["class"]):
+        return False
     return True
 
 
@@ -882,6 +909,8 @@ def check_witness(ctx, w):
         check_p2m(out, w["ref"], [tuple(p) for p in w["pairs"]], True, source="witness")
     elif w.get("kind") == "a2r":
         check_align_to_ref(out, w["seqs"], w["ref"], w.get("triple"), w["d"], w["e"])
+    elif w.get("kind") == "pw" and getattr(ctx, "driver", None) is not None:
+        check_pair_cases(ctx, out, [dict(w, tag="witness")])
     fs = [f for f in out["failures"] if f["kind"] == "spec"]
     return fs[0] if fs else None
 
